@@ -77,7 +77,9 @@ Chunk *pawn_add_vsemi_after(Chunk *pc)
 
    chunk.SetType(CT_VSEMICOLON);
    chunk.SetParentType(CT_NONE);
-   chunk.Str() = options::mod_pawn_semicolon() ? ";" : "";
+   // nothing is written into a disabled region
+   chunk.Str() = (  options::mod_pawn_semicolon()
+                 && pc->IsNot(CT_IGNORED)) ? ";" : "";
    chunk.SetColumn(pc->GetColumn() + pc->Len());
 
    LOG_FMT(LPVSEMI, "%s: Added VSEMI on line %zu, prev='%s' [%s]\n",
